@@ -205,6 +205,12 @@ class _A1:
                 if qq is not None:
                     v, ef = self.analyze(callee, qq)
                     if not v:
+                        # what the callee compared was the object it was GIVEN: if that object had already lost its pandas
+                        # index here (mask = np.asarray(mask) before the validator), the index comparison proves nothing
+                        given = {n.id for a in list(c.args) + [k.value for k in c.keywords] for n in ast.walk(a)
+                                 if isinstance(n, ast.Name)} & aliases
+                        if any(("DROP:" + g) in facts for g in given):
+                            ef = set(ef) - {"IDX"}
                         facts |= ef
         # 2. consumption
         for c in calls:
@@ -309,6 +315,10 @@ class _A1:
                 for t in tg:
                     if conv and isinstance(t, ast.Subscript) and isinstance(t.value, ast.Name) and t.value.id in aliases:
                         dropped.add(t.value.id)
+                    # the parameter (or an alias) re-bound to an index-free copy of itself:  mask = np.asarray(mask)
+                    if conv and isinstance(t, ast.Name) and t.id in aliases and self._mentions(n.value, {t.id}) \
+                            and "LEN" not in facts:
+                        dropped.add(t.id)
                     # plain aliasing after the drop:  to_check = value_list   (a copy taken BEFORE the drop is a new name
                     # assigned earlier on the path and is not affected)
                     if isinstance(t, ast.Name) and isinstance(n.value, ast.Name) and n.value.id in dropped:
